@@ -285,24 +285,95 @@ theorem npe_of_never {P : Params} {s : St} {ls rs : List Ev} (h : Inv P s ls rs)
       | wm w => rfl
     · exact ih (step_inv h op (ids_prefix hl) (ids_prefix hr)) (allBuf_step h hb op hne1) hl hr hne2
 
+/-! ### every call returns what it owes (no invariant needed) -/
+
+theorem owed_subset_step (P : Params) (s : St) (ls rs : List Ev) (op : Op) :
+    subsetB (owed P s ls rs op) ((step P s op).2.map idPair) = true := by
+  simp only [subsetB, List.all_eq_true, List.contains_iff_mem]
+  intro x hx
+  cases op with
+  | left e =>
+    simp only [owed, List.mem_map, List.mem_filter, Bool.and_eq_true] at hx
+    obtain ⟨r, ⟨_, hm, hb⟩, rfl⟩ := hx
+    exact List.mem_map.2 ⟨(e, r), step_out_complete_left e r hb hm, rfl⟩
+  | right e =>
+    simp only [owed, List.mem_map, List.mem_filter, Bool.and_eq_true] at hx
+    obtain ⟨l, ⟨_, hm, hb⟩, rfl⟩ := hx
+    exact List.mem_map.2 ⟨(l, e), step_out_complete_right l e hb hm, rfl⟩
+  | wm w => simp [owed] at hx
+
+theorem owedFrom_trace (P : Params) (s : St) (ls rs : List Ev) (ops : List Op) :
+    owedFrom P s ls rs ops ((trace P s ops).map (fun out => out.map idPair)) = true := by
+  induction ops generalizing s ls rs with
+  | nil => simp [owedFrom]
+  | cons op ops ih =>
+    simp only [trace, List.map_cons, owedFrom, Bool.and_eq_true]
+    exact ⟨owed_subset_step P s ls rs op, ih _ _ _⟩
+
 /-! ### the manager only routes -/
 
-theorem routedObs_mgrTrace (P : Params) (s : St) (ms : List MOp) (f : List (Ev × Ev) → List (Nat × Nat)) :
-    routedObs ms ((mgrTrace P s ms).map f) = (trace P s (ms.filterMap route)).map f := by
+theorem routedObsG_routedTrace {M : Type} (rt : M → Option Op) (P : Params) (s : St) (ms : List M)
+    (f : List (Ev × Ev) → List (Nat × Nat)) :
+    routedObsG rt ms ((routedTrace rt P s ms).map f) = (trace P s (ms.filterMap rt)).map f := by
   induction ms generalizing s with
   | nil => rfl
   | cons m ms ih =>
-    cases hr : route m with
-    | none => simp [mgrTrace, routedObs, hr, ih]
-    | some op => simp [mgrTrace, routedObs, hr, trace, ih]
+    cases hr : rt m with
+    | none => simp [routedTrace, routedObsG, hr, ih]
+    | some op => simp [routedTrace, routedObsG, hr, trace, ih]
+
+theorem unroutedSilentG_routedTrace {M : Type} (rt : M → Option Op) (P : Params) (s : St) (ms : List M)
+    (f : List (Ev × Ev) → List (Nat × Nat)) (hf : f [] = []) :
+    unroutedSilentG rt ms ((routedTrace rt P s ms).map f) = true := by
+  induction ms generalizing s with
+  | nil => rfl
+  | cons m ms ih =>
+    cases hr : rt m with
+    | none => simp [routedTrace, unroutedSilentG, hr, hf, ih]
+    | some op => simp [routedTrace, unroutedSilentG, hr, ih]
+
+theorem routedObs_mgrTrace (P : Params) (s : St) (ms : List MOp) (f : List (Ev × Ev) → List (Nat × Nat)) :
+    routedObs ms ((mgrTrace P s ms).map f) = (trace P s (ms.filterMap route)).map f :=
+  routedObsG_routedTrace route P s ms f
 
 theorem unroutedSilent_mgrTrace (P : Params) (s : St) (ms : List MOp) (f : List (Ev × Ev) → List (Nat × Nat))
-    (hf : f [] = []) : unroutedSilent ms ((mgrTrace P s ms).map f) = true := by
-  induction ms generalizing s with
+    (hf : f [] = []) : unroutedSilent ms ((mgrTrace P s ms).map f) = true :=
+  unroutedSilentG_routedTrace route P s ms f hf
+
+/-! ### several joins on one manager: the joins do not interact
+
+The call-major loop of the manager (`multiTrace`) is, column by column, the single-join trace of
+each registered join under its own routing. -/
+
+theorem multiTrace_length (jss : List (JoinDef × St)) (ms : List JOp) :
+    (multiTrace jss ms).length = ms.length := by
+  induction ms generalizing jss with
+  | nil => rfl
+  | cons m ms ih => simp [multiTrace, ih]
+
+theorem multiTrace_nil (ms : List JOp) (g : List (List (Ev × Ev)) → List (List (Nat × Nat))) (hg : g [] = []) :
+    ((multiTrace [] ms).map g).all (·.isEmpty) = true := by
+  induction ms with
+  | nil => rfl
+  | cons m ms ih => simp [multiTrace, hg] at ih ⊢; exact ih
+
+theorem heads_multiTrace (j : JoinDef) (s : St) (jss : List (JoinDef × St)) (ms : List JOp)
+    (f : List (Ev × Ev) → List (Nat × Nat)) :
+    heads ((multiTrace ((j, s) :: jss) ms).map (fun row => row.map f)) =
+      some ((routedTrace (routeJ j.l j.r) j.P s ms).map f) := by
+  induction ms generalizing s jss with
   | nil => rfl
   | cons m ms ih =>
-    cases hr : route m with
-    | none => simp [mgrTrace, unroutedSilent, hr, hf, ih]
-    | some op => simp [mgrTrace, unroutedSilent, hr, ih]
+    cases hr : routeJ j.l j.r m with
+    | none => simp [multiTrace, heads, routedTrace, stepJ, hr, ih]
+    | some op => simp [multiTrace, heads, routedTrace, stepJ, hr, ih]
+
+theorem tails_multiTrace (j : JoinDef) (s : St) (jss : List (JoinDef × St)) (ms : List JOp)
+    (f : List (Ev × Ev) → List (Nat × Nat)) :
+    tails ((multiTrace ((j, s) :: jss) ms).map (fun row => row.map f)) =
+      (multiTrace jss ms).map (fun row => row.map f) := by
+  induction ms generalizing s jss with
+  | nil => rfl
+  | cons m ms ih => simp [multiTrace, tails, ih]
 
 end C14
